@@ -11,6 +11,7 @@ import Driver.TreeP
 import Driver.ResP
 import Driver.WidthP
 import Driver.RefP
+import Driver.InlP
 /-! Line-protocol driver (E3): first word selects a sub-protocol, one output line per input line.
     Imports only core-only Model/Spec modules so that it links as a `lean_exe`. -/
 open Gomjml
@@ -51,6 +52,8 @@ def handle (line : String) : String :=
   | "strip" :: args => Driver.PassP.handle "strip" args
   | "cdesc" :: args => Driver.PassP.handle "cdesc" args
   | "cdrt" :: args => Driver.PassP.handle "cdrt" args
+  | "inltag" :: args => Driver.InlP.handle args
+  | "mergestyle" :: args => Driver.InlP.mergeHandle args
   | _ => "bad-request"
 
 partial def loop (hin hout : IO.FS.Stream) : IO Unit := do
